@@ -463,12 +463,22 @@ func recoverTable(s *session, o *opt.Options) error {
 		return nil
 	}
 
+	// Mark every file number found in the storage as used, not only those of
+	// the tables: the manifest written below must outrank every manifest that
+	// is still there, otherwise a pending CURRENT.<n> left behind by an
+	// interrupted SetMeta, whose manifest still exists, wins over it at the
+	// next GetMeta.
+	all, err := s.stor.List(storage.TypeAll)
+	if err != nil {
+		return err
+	}
+	for _, fd := range all {
+		s.markFileNum(fd.Num)
+	}
+
 	// Recover all tables.
 	if len(fds) > 0 {
 		s.logf("table@recovery F·%d", len(fds))
-
-		// Mark file number as used.
-		s.markFileNum(fds[len(fds)-1].Num)
 
 		for _, fd := range fds {
 			if err := recoverTable(fd); err != nil {
